@@ -1,20 +1,28 @@
 import Afkak.ClientNet
+import Afkak.ClientTrace
 import Afkak.Monitor.C07
 /-! Open statements of C07 (full strength, not yet proved). -/
 namespace Afkak.Props.C07.Open
 open Afkak.ClientNet Afkak.ClientCache
 
-/-- Every trace of the client model satisfies the C07 monitor (the predicate that is evaluated on the
-    real client's traces): routing, one request per broker, order, accounting and the fallback order
-    of broker-agnostic requests hold along every event sequence, not only for the pure kernels. -/
+/-- Every trace of the client model - with the attribution of each request to its operation that the model
+    knows from the request's owner (`traceOfA`, Afkak/ClientTrace.lean) - satisfies the core rules of the C07
+    monitor that is evaluated on the real client's traces: routing, one request per broker, order, accounting,
+    coordinator requests on the coordinator, connected brokers first, no broker tried twice; for well-formed
+    runs (fresh operation ids, no `badOp`, no fuel exhaustion).  The rules about the fall-back to the bootstrap
+    hosts are idle on these traces (no `battr`/`uop` items): see `C07_unaware_unavailable_only_after_all`.
+    Evaluated (not proved) on the model trace of every scenario the harness generates (`mon-c07-model`). -/
 def C07_model_traces_satisfy_monitor : Prop :=
-  ∀ (cfg : Cfg) (evs : List (Env × Ev)), Afkak.Monitor.C07.ok cfg (traceOf cfg {} evs) = true
+  ∀ (cfg : Cfg) (evs : List (Env × Ev)), WellFormedRun cfg evs → NoFuel cfg {} evs →
+    Afkak.Monitor.C07.ok cfg (traceOfA cfg {} evs) = true
 
-/-- A broker-agnostic request fails with `unavailable` only after every known broker and every
-    bootstrap host has been tried (stated on the model's coroutine, all event sequences). -/
+/-- A metadata load fails with `unavailable` only after every bootstrap host has been tried - unless the
+    client was closed or the operation cancelled (then the failure is not the exhaustion of all servers).
+    Stated on the model's coroutine, all well-formed event sequences. -/
 def C07_unaware_unavailable_only_after_all : Prop :=
-  ∀ (cfg : Cfg) (evs : List (Env × Ev)) (o : Nat),
-    TItem.ob (.result o (.fail .unavailable)) ∈ (traceOf cfg {} evs).map id →
-    ∀ hp ∈ cfg.bootHosts, ∃ j, TItem.ob (.bootConnect j hp.1 hp.2) ∈ (traceOf cfg {} evs).map id
+  ∀ (cfg : Cfg) (evs : List (Env × Ev)) (o : Nat), WellFormedRun cfg evs → NoFuel cfg {} evs →
+    (∀ e ∈ evs, (∀ o', e.2 ≠ .close o') ∧ e.2 ≠ .cancel o) →
+    TItem.ob (.result o (.fail .unavailable)) ∈ traceOf cfg {} evs →
+    ∀ hp ∈ cfg.bootHosts, ∃ j, TItem.ob (.bootConnect j hp.1 hp.2) ∈ traceOf cfg {} evs
 
 end Afkak.Props.C07.Open
